@@ -35,13 +35,21 @@ REQUIRED = ["mon:row-equals-single-run", "mon:row-count-and-order", "mon:frequen
             "mon:finite-nonnegative", "mon:nyquist-refusal", "mon:permutation-consistent"]
 
 POLICIES = ["frequency_domain_resampling", "keeping_smallest_time_step", "keeping_majority_time_step"]
-ARR = ["single-dt", "sorted", "reverse", "interleaved", "majority-first", "majority-last", "tie", "random"]
+ARR = ["single-dt", "sorted", "reverse", "interleaved", "majority-first", "majority-last", "tie", "random", "near-equal"]
 
 
 def gen_dts(rng, k, arrangement):
     pool = [0.005, 0.01, 0.02, 0.004, 1 / 75, 0.0125]
     if arrangement == "single-dt" or k == 1:
         return [float(rng.choice(pool))] * k
+    if arrangement == "near-equal":
+        # two time steps that differ only by rounding (0.01 s stored in single precision reads back as 0.00999999978 s):
+        # they are different time steps, and every recording keeps its own
+        a = float(rng.choice([0.01, 0.005, 0.02]))
+        b = float(np.float32(a)) if rng.random() < 0.7 else a * (1 + 1e-7)
+        dts = [a if rng.random() < 0.5 else b for _ in range(k)]
+        dts[0], dts[-1] = (a, b) if rng.random() < 0.5 else (b, a)
+        return dts
     nd = int(rng.integers(2, min(4, k) + 1))
     ds = [float(x) for x in rng.choice(pool, nd, replace=False)]
     if arrangement == "tie" and k >= 2:
